@@ -471,6 +471,7 @@ func init() {
 		Explanation: "Decided (structural clauses; no comparison with the installed go/scanner is possible, the fork is a Go 1.13 copy): I1 extension isolation: in Scanner.Scan every assignment of an extension token (etoken.QUOTE ... HASH, LookupSpecial) is control-dependent on the current character being the macro character or '#'; etoken.Lookup returns a non-standard token only for the words macro and # (and template under C++-style generics) and classifies every other word with go/token.Lookup, unconditionally; in the case clause shared by '/' and '#' every alternative that inspects the next character also fixes the current one (so '#!' starts a comment but '/!' does not); " +
 			"I2 table agreement with the Go specification: for each operator / delimiter character the set of tokens its case can produce equals the specification's set (25 characters), every such character has a case, the switch2/3/4 helpers return the '=' form on '=', and every call passes (X, X_ASSIGN[, doubled char, doubled token[, its _ASSIGN]]) consistently with its case character; " +
 			"I3 the set of tokens after which a newline becomes a semicolon equals the specification's (identifier, literals, break continue fallthrough return ++ -- ) ] }). " +
+			"I3 utf8.RuneError signals an illegal encoding only together with width 1 (a literal U+FFFD has width 3). " +
 			"Not decided: scanning of identifiers, numbers, strings, runes and comments (scanIdentifier, scanNumber, scanString ...), positions, error reporting.",
 		Assumptions: []string{"Go specification tables for operators/punctuation and automatic semicolon insertion (in the checker source)"},
 		Rules: []func(*Ctx){func(c *Ctx) {
@@ -481,6 +482,7 @@ func init() {
 		}},
 		Technique: "AST/type-resolved custom analysis: control dependence of extension-token assignments, table agreement of the token switch against the Go specification",
 		Mutants: []Mutant{
+			{Name: "valid-replacement-character-reported-illegal", File: "go/scanner/scanner.go", Old: "if r == utf8.RuneError && w == 1 {", New: "if r == utf8.RuneError {"},
 			{Name: "hash-token-for-slash", File: "go/scanner/scanner.go", Old: "\t\t\t} else if ch == '#' {\n\t\t\t\ttok = etoken.HASH", New: "\t\t\t} else if ch == '#' || s.ch == '#' {\n\t\t\t\ttok = etoken.HASH", Canary: true},
 			{Name: "slash-bang-taken-for-comment", File: "go/scanner/scanner.go", Old: "if ch == '/' && (s.ch == '/' || s.ch == '*') || ch == '#' && s.ch == '!' {", New: "if s.ch == '/' || s.ch == '*' || s.ch == '!' {"},
 			{Name: "percent-equals-becomes-quo-assign", File: "go/scanner/scanner.go", Old: "tok = s.switch2(token.REM, token.REM_ASSIGN)", New: "tok = s.switch2(token.REM, token.QUO_ASSIGN)", Canary: true},
